@@ -2,7 +2,7 @@
 # usage: tools/seed_matrix.sh [seed names...]   — apply each seeded defect to a scratch copy of /repo and run the quick check(s)
 # that should catch it (VERIF_REPO points the driver at the copy; /repo itself is not touched). Appends to seeded/RESULTS.txt.
 cd /verif
-declare -A EXTRA=( [C12f]="C03" [C20f]="C03" [C17e]="C03" [C15k]="C11" [C15j]="C05" [C17k]="C03" [C20j]="C05" [C16l]="C15" [C01k]="C05" [C01l]="C14" [C12j]="C03" [C10k]="C03" [C04l]="C15" [C11l]="C01" [C02h]="C17" [C03h]="C17" [C02i]="C03" [C10i]="C03" [C12g]="C03" [C12i]="C03" [C17h]="C20" [C16g]="C20" [C05i]="C03" [C17f]="C15" [C14f]="C15" [C01f]="C05" [C11f]="C01" [C04f]="C03" [C10d]="C03" [C11e]="C03" [C05f]="C03" [C01c]="C03" [C02c]="C03" [C10a]="C03" [C12c]="C03" [C11c]="C03" [C20c]="C17" [C05c]="C03" )
+declare -A EXTRA=( [C12f]="C03" [C20f]="C03" [C17e]="C03" [C15o]="C17" [C15n]="C16" [C16n]="C17" [C20o]="C11" [C20n]="C05" [C15k]="C11" [C15j]="C05" [C17k]="C03" [C20j]="C05" [C16l]="C15" [C01k]="C05" [C01l]="C14" [C12j]="C03" [C10k]="C03" [C04l]="C15" [C11l]="C01" [C02h]="C17" [C03h]="C17" [C02i]="C03" [C10i]="C03" [C12g]="C03" [C12i]="C03" [C17h]="C20" [C16g]="C20" [C05i]="C03" [C17f]="C15" [C14f]="C15" [C01f]="C05" [C11f]="C01" [C04f]="C03" [C10d]="C03" [C11e]="C03" [C05f]="C03" [C01c]="C03" [C02c]="C03" [C10a]="C03" [C12c]="C03" [C11c]="C03" [C20c]="C17" [C05c]="C03" )
 seeds="$@"; [ -z "$seeds" ] && seeds=$(ls seeded | grep -E '^C[0-9]{2}[abc]$')
 for sd in $seeds; do
   prop=${sd:0:3}
